@@ -27,13 +27,16 @@ pub enum Probe {
     LdAbsBig,
     /// `ldindb r5, 0xfff0` with r5 = 0x14
     LdIndBig,
+    /// "a private 512-byte stack": both ends written, a helper that itself runs another program under
+    /// the interpreter (which fills *its* stack), both ends read back
+    StackAcrossNested,
     /// two consecutive indirect loads whose index register is r0, the register they write:
     /// r0 = 1; r0 = pkt[r0 + 2]; r0 = pkt[r0 + 4]
     LdIndChain,
 }
 
 fn probes() -> Vec<Probe> {
-    let mut v = vec![Probe::R1, Probe::DataStart, Probe::DataEnd, Probe::Len, Probe::LdAbs0, Probe::Stack, Probe::LdAbsLast, Probe::LdAbsBig, Probe::LdIndBig, Probe::LdIndChain];
+    let mut v = vec![Probe::R1, Probe::DataStart, Probe::DataEnd, Probe::Len, Probe::LdAbs0, Probe::Stack, Probe::LdAbsLast, Probe::LdAbsBig, Probe::LdIndBig, Probe::LdIndChain, Probe::StackAcrossNested];
     for k in 0..ctx_alphabet().len() as u8 {
         v.push(Probe::LdAbsAfter(k));
         v.push(Probe::LdIndAfter(k));
@@ -51,6 +54,11 @@ const BIG: usize = 0x11000;
 
 pub fn ctx_helper(a: u64, b: u64, _c: u64, _d: u64, _e: u64) -> u64 {
     a.wrapping_add(b)
+}
+
+pub fn ctx_nested_helper(a: u64, _b: u64, _c: u64, _d: u64, _e: u64) -> u64 {
+    crate::callseng::nested_run(1);
+    a
 }
 
 /// Instructions executed between the entry and a packet load: whatever they use as scratch, the
@@ -149,6 +157,15 @@ fn probe_prog(p: Probe, a: usize, b: usize) -> Vec<I> {
             v.push(I::new(0x50, 0, 0, 0, 2));
             v.push(I::new(0x50, 0, 0, 0, 4));
         }
+        Probe::StackAcrossNested => {
+            v.push(I::new(0x72, 10, 0, -1, 0x5a));
+            v.push(I::new(0x72, 10, 0, -512, 0x6b));
+            v.push(isa::call_helper(2));
+            v.push(isa::ldxb(0, 10, -1));
+            v.push(isa::ldxb(2, 10, -512));
+            v.push(I::new(0x67, 0, 0, 0, 8));
+            v.push(I::new(0x4f, 0, 2, 0, 0));
+        }
         Probe::Stack => {
             v.push(I::new(0x72, 10, 0, -1, 0x5a));
             v.push(I::new(0x72, 10, 0, -512, 0x6b));
@@ -180,7 +197,7 @@ fn applicable(kind: VmKind, p: Probe, pk: &Pkt) -> bool {
         Probe::LdAbsLast | Probe::LdAbsAfter(_) | Probe::LdIndAfter(_) | Probe::LdAbsAfter2(..) => !matches!(kind, VmKind::NoData) && pk.len > 6,
         Probe::LdAbsBig | Probe::LdIndBig => !matches!(kind, VmKind::NoData) && pk.len > 0x10004,
         Probe::LdIndChain => !matches!(kind, VmKind::NoData) && pk.len > 300,
-        Probe::Stack => true,
+        Probe::Stack | Probe::StackAcrossNested => true,
     }
 }
 
@@ -212,7 +229,7 @@ fn expected(kind: VmKind, p: Probe, pk: &Pkt, bufs: &[Buf; 3], mb: &Buf) -> u64 
         Probe::LdAbsLast | Probe::LdAbsAfter(_) | Probe::LdIndAfter(_) | Probe::LdAbsAfter2(..) => bufs[pk.buf].bytes()[6] as u64,
         Probe::LdAbsBig | Probe::LdIndBig => bufs[pk.buf].bytes()[0x10004] as u64,
         Probe::LdIndChain => bufs[pk.buf].bytes()[bufs[pk.buf].bytes()[3] as usize + 4] as u64,
-        Probe::Stack => 0x5a6b,
+        Probe::Stack | Probe::StackAcrossNested => 0x5a6b,
     }
 }
 
@@ -259,6 +276,7 @@ fn group(s: &mut Sink, kind: VmKind, eng: Eng, p: Probe, thorough: bool, reload:
         }
     };
     let _ = vmx.register_helper(1, ctx_helper);
+    let _ = vmx.register_helper(2, ctx_nested_helper);
     match catch(|| vmx.compile(eng)) {
         Ok(Ok(())) => {}
         Ok(Err(e)) => {
